@@ -246,6 +246,8 @@ impl EventSource for Park {
         }
 
         // re-check the timeout: if the timer has fired already it found nobody to wake up
+        #[cfg(may_verif)]
+        crate::verif::pt("psub.recheck_timeout", crate::verif::addr(self), vid, 0);
         if deadline.is_some_and(|t| now() >= t) {
             if let Some(mut co) = self.wait_co.take() {
                 set_co_para(&mut co, io::Error::new(ErrorKind::TimedOut, "timeout"));
